@@ -42,6 +42,7 @@ def install_all(reg):
     algorithms.install_skipnode(reg)
     algorithms.install_target(reg)
     algorithms.install_dfs(reg)
+    algorithms.install_minimal(reg)
 
     _extra_tags(reg)
 
